@@ -288,6 +288,23 @@ def gen_pair(rng, row=None):
     return case
 
 
+def soften_for_extras(case, model):
+    """documents carrying members outside the stated schema: a version of the library may give them a meaning of its own and
+    refuse, or name its own reason first - the stated rule only says when an offer must NOT be accepted"""
+    if not case.get("extras"):
+        return model
+    if model.v == models.ACCEPT:
+        return models.Verdict(models.GREY, None, (model.why or "") + " (extra members present: acceptance not demanded)")
+    if model.v == models.REJECT:
+        return models.Verdict(models.REJECT, None, model.why, model.counted, model.grey_counted)
+    return model
+
+
+def model_of(case, trusted=None, new=None):
+    m, failed = models.root_verdict(copy.deepcopy(case["trusted"]) if trusted is None else trusted, copy.deepcopy(case["new"]) if new is None else new)
+    return soften_for_extras(case, m), failed
+
+
 def evaluate(case, lib, fn=None):
     trusted = copy.deepcopy(case["trusted"])
     new = copy.deepcopy(case["new"])
@@ -298,13 +315,7 @@ def evaluate(case, lib, fn=None):
         out = boundary.call(lib, f, trusted, new)
     case["_stdout_write_attempts"] = hs.attempts
     model = hostile.adjust(model, case.get("stdout"))
-    if case.get("extras") and model.v == models.ACCEPT:
-        # members outside the stated schema: a version of the library may give them a meaning of its own and refuse - the stated
-        # rule only says when an offer must NOT be accepted
-        model = models.Verdict(models.GREY, None, (model.why or "") + " (extra members present: acceptance not demanded)")
-    elif case.get("extras") and model.v == models.REJECT:
-        # ... and a version that gives such a member a format may name its own reason first: which error is not judged
-        model = models.Verdict(models.REJECT, None, model.why, model.counted, model.grey_counted)
+    model = soften_for_extras(case, model)
     mutated = boundary.fingerprint([trusted, new]) != before
     return model, failed, out, mutated
 
